@@ -671,8 +671,8 @@ impl_robdd!(LruIteTable);
 #[macro_export]
 macro_rules! with_robdd {
     ($cfg:expr, $b:ident, $body:block) => {{
-        rsdd::verif::set_unique_table_capacity($cfg.uniq_cap);
-        rsdd::verif::set_lru_ite_capacity_bits($cfg.lru_bits);
+        crate::caps::set_unique($cfg.uniq_cap);
+        crate::caps::set_lru_bits($cfg.lru_bits);
         let _ = rsdd::verif::take_counters();
         let order_lbls: Vec<rsdd::repr::VarLabel> =
             $cfg.order.iter().map(|x| rsdd::repr::VarLabel::new(*x as u64)).collect();
@@ -682,8 +682,8 @@ macro_rules! with_robdd {
                 let builder = rsdd::builder::bdd::RobddBuilder::<
                     rsdd::builder::cache::AllIteTable<rsdd::repr::BddPtr>,
                 >::new(vo);
-                rsdd::verif::set_unique_table_capacity(None);
-                rsdd::verif::set_lru_ite_capacity_bits(None);
+                crate::caps::set_unique(None);
+                crate::caps::set_lru_bits(None);
                 let $b = &builder;
                 $body
             }
@@ -691,8 +691,8 @@ macro_rules! with_robdd {
                 let builder = rsdd::builder::bdd::RobddBuilder::<
                     rsdd::builder::cache::LruIteTable<rsdd::repr::BddPtr>,
                 >::new(vo);
-                rsdd::verif::set_unique_table_capacity(None);
-                rsdd::verif::set_lru_ite_capacity_bits(None);
+                crate::caps::set_unique(None);
+                crate::caps::set_lru_bits(None);
                 let $b = &builder;
                 $body
             }
